@@ -9,7 +9,8 @@ VARS = ["lx", "ly", "lz"]
 OPS = ["copy-list", "subseq", "reverse", "butlast", "append", "append0", "append3", "remove", "remove-if", "mapcar", "cons", "cdr",
        "rest", "rest0", "nthcdr", "last", "member", "push", "pop", "setcar", "setnth", "setelt", "rplaca", "rplacd", "nconc",
        "nreverse", "sort", "delete", "add", "list", "alias",
-       "remove-fe", "delete-fe", "remove-cnt", "remove-fecnt", "substitute", "remove-dup", "union", "set-difference", "reduce-key"]
+       "remove-fe", "delete-fe", "remove-cnt", "remove-fecnt", "substitute", "remove-dup", "union", "set-difference", "reduce-key",
+       "mvlist", "addf", "liststar", "liststar0", "subst", "copy-tree", "maprest"]
 MODES = ["exact", "spare", "tail", "butlast", "appended"]
 NEEDS_ELEM = ("setcar", "rplaca", "setnth", "setelt", "rplacd", "subseq", "mapcar")
 
@@ -19,8 +20,14 @@ def _mirror(ln, op):
     verdict never depends on it: the acceptor recomputes everything from the observations)."""
     o, s = op["op"], ln[op["src"]]
     d = op["dst"]
-    if o in ("copy-list", "reverse", "nreverse", "mapcar", "alias", "sort", "rest0"):
+    if o in ("copy-list", "reverse", "nreverse", "mapcar", "alias", "sort", "rest0", "mvlist", "copy-tree", "subst", "liststar0"):
         ln[d] = s
+    elif o == "liststar":
+        ln[d] = s + 1
+    elif o == "addf":
+        ln[op["src"]] = s + 1
+    elif o == "maprest":
+        ln[d] = 2 * min(s, ln[op["src2"]])
     elif o == "subseq":
         ln[d] = op["k"]
     elif o in ("butlast", "cdr", "rest"):
@@ -63,7 +70,7 @@ def _fit(rng, ln, op):
         op["k"] = rng.randrange(s)
     if o == "subseq":
         op["k"] = rng.randint(0, s)
-    if o in ("push", "pop"):
+    if o in ("push", "pop", "addf"):
         op["dst"] = op["src"]
     return op
 
